@@ -51,8 +51,20 @@ def circuit_columns(qf, extra_init=None):
     return cols, M, n
 
 
+def _hx(x):
+    if isinstance(x, bool) or x is None or isinstance(x, (str, float)):
+        return x
+    if isinstance(x, int):
+        return hex(x)
+    if isinstance(x, (list, tuple, set, frozenset)):
+        return [_hx(e) for e in x]
+    if isinstance(x, dict):
+        return sorted((str(k), _hx(v)) for k, v in x.items())
+    return repr(x)
+
+
 def h12(x):
-    return hashlib.sha1(repr(x).encode()).hexdigest()[:12]
+    return hashlib.sha1(repr(_hx(x)).encode()).hexdigest()[:12]
 
 
 def exc_name(e):
